@@ -457,7 +457,26 @@ def meta_state_scenario(r, k):
         for d, v in enumerate(vs):
             L.append("pos %d 0 0 %r" % (d + 1, v["lower"] + v["w"] * r.uniform(1.5, v["nx"] - 1.5)))
         L.append("step")
-    L += ["save %s meta%d.state" % ("binary" if k % 2 else "text", k), "postrun", "prefix metaB%d" % k, "fresh"] + cfg + ["load meta%d.state" % k, "postrun"]
+    # the job that loads the state is configured as the first one, or (legally) with wider boundaries: then the grid comes
+    # back as it was saved (rebinGrids off) or is mapped onto the newly configured grid (rebinGrids on)
+    mode = ("same", "wider", "wider-rebin")[k % 3]
+    vb = [dict(v) for v in vs]
+    cfgb = list(cfg)
+    if mode != "same":
+        for v in vb:
+            v["e1"], e2 = r.randint(0, 2), r.randint(0, 2)
+            if v["e1"] + e2 == 0:
+                e2 = 1
+            v["lower"], v["upper"], v["nx"] = v["lower"] - v["e1"] * v["w"], v["upper"] + e2 * v["w"], v["nx"] + v["e1"] + e2
+        cfgb = ["config END"]
+        for d, v in enumerate(vb):
+            cfgb += ["colvar {", "  name v%d" % d, "  lowerBoundary %r" % v["lower"], "  upperBoundary %r" % v["upper"], "  width %r" % v["w"],
+                     "  distanceZ {", "    main { atomNumbers %d }" % (d + 1), "    ref { dummyAtom (0,0,0) }", "    axis (0,0,1)", "  }", "}"]
+        cfgb += ["metadynamics {", "  name m", "  colvars " + " ".join("v%d" % d for d in range(nd)), "  hillWeight 0.25", "  hillWidth 1.0",
+                 "  newHillFrequency 1", "  useGrids on", "  writeFreeEnergyFile on"] + (["  rebinGrids on"] if mode == "wider-rebin" else []) + ["}", "END"]
+    L += ["save %s meta%d.state" % ("binary" if k % 2 else "text", k), "postrun", "prefix metaB%d" % k, "fresh"] + cfgb + ["load meta%d.state" % k, "postrun"]
+    for v, b in zip(vs, vb):
+        v["mode"], v["b"] = mode, b
     return vs, "\n".join(L) + "\n"
 
 
@@ -487,6 +506,28 @@ def check_meta_states(run, r, vsim, d, n):
                 gridio.close(a[0], b[0], 1e-12) and gridio.close(a[1], b[1], 1e-12) and a[2] == b[2] and a[3] == b[3] for a, b in zip(h, want))
         if not same(ha):
             run.mismatch("state:meta:config", {"scenario": scn}, ha, want)
+            continue
+        mode = vs[0].get("mode", "same")
+        run.dist("state:meta:mode=" + mode)
+        if mode == "wider-rebin":
+            # the saved grid mapped onto the newly configured one (map_grid): the new geometry, the saved values in the bins
+            # they had (the PMF is defined up to a constant)
+            wantb = [(v["b"]["lower"], v["b"]["w"], v["b"]["nx"], 0) for v in vs]
+            okb = hb is not None and len(hb) == len(wantb) and all(gridio.close(a[0], b[0], 1e-12) and gridio.close(a[1], b[1], 1e-12) and a[2] == b[2]
+                                                                   for a, b in zip(hb, wantb))
+            bad = None if okb else "the re-binned grid has lower boundary/width/size %s, configured %s" % ([h_[:3] for h_ in hb] if hb else None, [w_[:3] for w_ in wantb])
+            if okb and len(vs) == 1:
+                da = [float(l.split()[1]) for l in open(fa).read().split("\n") if l.strip() and not l.startswith("#")]
+                db = [float(l.split()[1]) for l in open(fb).read().split("\n") if l.strip() and not l.startswith("#")]
+                e1 = vs[0]["b"]["e1"]
+                diffs = [db[i + e1] - da[i] for i in range(len(da))] if len(db) >= len(da) + e1 else None
+                if diffs is None or max(diffs) - min(diffs) > 1e-9 * max(1.0, max(abs(x) for x in da)):
+                    bad = "the re-binned PMF %s is not the saved PMF %s moved by %d bins (up to a constant)" % (db[:12], da[:12], e1)
+            if bad:
+                run.violation("io:state:metadynamics-rebin", "state of a metadynamics bias loaded by a job configured with wider boundaries and rebinGrids on: " + bad,
+                              {"kind": "hist", "scenario": scn})
+            for f in glob.glob(os.path.join(d, "meta?%d.*" % k)) + glob.glob(os.path.join(d, "meta%d.*" % k)):
+                os.remove(f)
             continue
         if not same(hb):
             run.violation("io:roundtrip:state:metadynamics", "after saving and loading the state of a metadynamics bias the energy grid has lower boundary/width/size %s; the grid that was saved (and is configured) has %s" % (
@@ -820,7 +861,7 @@ def check(run):
         for f in [sf, sc] + glob.glob(sf + ".r*") + glob.glob(os.path.join(d, "hout%d.*" % k)):
             if os.path.exists(f):
                 os.remove(f)
-    check_meta_states(run, V.rng("C15meta"), vsim, d, 6 if quick else 60)
+    check_meta_states(run, V.rng("C15meta"), vsim, d, 9 if quick else 90)
     check_bad_histogram_configs(run, vsim, d)
     if check_vector_histogram(run, vsim, d):
         check_vector_scenarios(run, V.rng("C15vec"), vsim, model, d, 30 if quick else 400)
